@@ -153,3 +153,26 @@ Proof.
       fold (run_frames x). fold (run_data m x). cbn [app].
       rewrite (group_runs m l (r_ts x) (r_srv x) (run_data m x) Hr Hnd'). reflexivity.
 Qed.
+
+(* ---- -a only adds (C13, QUIC): the data exported without -a is the data exported with -a minus the frames only -a exports ---- *)
+Definition is_stream (f : oframe) : bool := match of_kind f with OStream => true | _ => false end.
+
+Lemma all_data_without_meta out : all_data false out = all_data true (filter is_stream out).
+Proof.
+  induction out as [|f r IH]; [reflexivity|]. rewrite all_data_cons. cbn [filter]. unfold is_stream at 1.
+  unfold fdata at 1, frame_data. destruct (of_kind f); cbn [app]; rewrite ?all_data_cons; rewrite IH; try reflexivity.
+  unfold fdata, frame_data. destruct (of_kind f) eqn:E; try reflexivity.
+Qed.
+
+Lemma filter_dir_stream b out : filter is_stream (dir_frames b out) = dir_frames b (filter is_stream out).
+Proof.
+  unfold dir_frames. induction out as [|f r IH]; [reflexivity|]. cbn [filter].
+  destruct (Bool.eqb (of_isserver f) b) eqn:E1; destruct (is_stream f) eqn:E2; cbn [filter]; rewrite ?E1, ?E2, IH; reflexivity.
+Qed.
+
+Theorem meta_only_adds_quic b out :
+  concat (map od_payload (dir_dgrams b (quic_build false out))) = all_data true (filter is_stream (dir_frames b out)) /\
+  concat (map od_payload (dir_dgrams b (quic_build true out))) = all_data true (dir_frames b out).
+Proof.
+  split; [|apply build_per_direction]. rewrite build_per_direction. apply all_data_without_meta.
+Qed.
